@@ -17,3 +17,25 @@ package forkjoin
 //@ callreq work: a1 == workCtx && a2 == in && workCtx.Err() == nil
 //@ callreq enqueue: a1 == in
 //@ loop 1 invariant ncalls(enqueue) == $i
+
+// Options set exactly the field they name (the multi client relies on WithoutFailFast and WithWorkers(len(group))).
+//@ func WithoutFailFast$1
+//@ props C19
+//@ assigns o.failFast
+//@ ensures !o.failFast
+
+//@ func WithWorkers$1
+//@ props C19
+//@ assigns o.workers
+//@ ensures o.workers == w
+
+//@ func WithInputBuffer$1
+//@ props C19
+//@ assigns o.inputBuf
+//@ ensures o.inputBuf == i
+
+//@ func WithWaitOnCancel$1
+//@ props C19
+//@ assigns o.waitOnCancel
+//@ ensures o.waitOnCancel
+
